@@ -223,7 +223,6 @@ func (h *harness) streamPluginSeq(ts []*target) {
 		return
 	}
 	n := c.Pick(3000, 100000)
-	dead := map[string]bool{}
 	const stream = "plugin-seq"
 	for i := 0; i < n; i++ {
 		if !c.Mine(stream, i) {
@@ -233,9 +232,6 @@ func (h *harness) streamPluginSeq(ts []*target) {
 		steps := r.Range(2, 6)
 		for s := 0; s < steps; s++ {
 			tg := ts[r.Intn(len(ts))]
-			if dead[tg.name] {
-				continue
-			}
 			args := make([]interface{}, r.Intn(8))
 			for k := range args {
 				if r.Chance(2, 3) {
@@ -245,17 +241,6 @@ func (h *harness) streamPluginSeq(ts []*target) {
 				}
 			}
 			c.AddEvals(1)
-			_, _, _, _, _, blocked, wit := h.watchedCall(tg, args)
-			if blocked {
-				if wit == "" {
-					c.Inconclusive("a plugin call did not return and no witness was found", stream, i, map[string]interface{}{"function": tg.name})
-				} else {
-					h.violation("plugin-call-blocked", "a call of a plugin function never returns: it is parked on a lock of the bridge that nobody holds (left locked by an earlier call)", stream, i, tg, args,
-						map[string]interface{}{"goroutine": wit})
-				}
-				dead[tg.name] = true
-				continue
-			}
 			o := h.judge(stream, i, tg, args)
 			c.Event("pluginseq."+o, 1)
 		}
